@@ -108,11 +108,24 @@ def value_and_search(rnd, acc, case=None):
             searches.append([rdate(rnd, -15, 25), rnd.choice([1, -1]), rnd.choice([0, 1, 2, 7, 30, 400, None])])
         # a resource is named by whatever the tasks put into their resource field: a string, None (the default resource), a number
         case = {'kind': 'calendar', 'ast': ast, 'dates': [list(x) for x in dates], 'searches': searches,
-                'resource_name': rnd.choice(['r', 'r', None, 0, 7, ''])}
+                'resource_name': rnd.choice(['r', 'r', None, 0, 7, '']), 'alias_probe': rnd.random() < 0.25}
     ast = case['ast']
     shp = calast.shape(ast)
     try:
-        cal = calast.build(ast)
+        kept = []
+        cal = calast.build(ast, kept)
+        if case.get('alias_probe'):
+            # the day lists and dicts handed to the constructors are the caller's: editing them afterwards (a template
+            # that is reused for the next calendar) must not change what the calendar was configured with
+            for c_ in kept:
+                if isinstance(c_, dict):
+                    for k_ in list(c_):
+                        c_[k_] = 99
+                    c_[3] = 99
+                else:
+                    c_.clear()
+                    c_.extend([0, 1, 2, 3, 4, 5, 6])
+            acc.count('constructor_alias_probes')
     except Exception as e:
         acc.ev()
         acc.violation(f'C17/valid-definition-rejected/{type(e).__name__}', f'valid calendar expression {shp} rejected: {type(e).__name__}: {e}', case)
@@ -263,6 +276,45 @@ def definition_cases(rnd):
     return out
 
 
+def check_rejected_edit(rnd, acc, case=None):
+    """an edit that is rejected leaves the calendar exactly as configured, and the calendar stays usable"""
+    from pjplan import DirectCalendar
+    if case is None:
+        d1 = BASE + td(days=rnd.randint(0, 5))
+        d2, d3 = d1 + td(days=1), d1 + td(days=rnd.choice([2, 3]))
+        first = {d1: rnd.choice([1, 8, 2.5]), d2: rnd.choice([0, 4])}
+        bad = {d3: rnd.choice([3, 5]), (d2 if rnd.random() < 0.5 else d3 + td(days=1)): rnd.choice([-1, -0.5])}
+        case = {'kind': 'rejected-edit', 'first': [[k, v] for k, v in first.items()], 'bad': [[k, v] for k, v in bad.items()]}
+    first = {k: v for k, v in case['first']}
+    bad = {k: v for k, v in case['bad']}
+    d1, d2 = list(first)[:2]
+    d3 = list(bad)[0]
+    cal = DirectCalendar(dict(first))
+    acc.ev()
+    acc.count('rejected_edits')
+    try:
+        cal.set_units(dict(bad))
+        acc.violation('C17/invalid-definition-accepted/negative-units/direct-set_units', 'set_units with a negative value accepted', case)
+        return
+    except RuntimeError:
+        pass
+    except Exception as e:
+        acc.violation(f'C17/invalid-definition-raises-{type(e).__name__}/negative-units/direct-set_units', f'set_units with a negative value -> {type(e).__name__}', case)
+        return
+    for d in (d1, d2, d3, d3 + td(days=1)):
+        want = first.get(d)
+        got = cal.get_available_units(d)
+        if not (got == want or (want is None and got in (None, 0))):
+            acc.violation('C17/rejected-edit-changed-calendar', f'after a rejected set_units the calendar answers {got!r} for {d} (configured: {want!r})', case)
+            return
+    try:
+        cal.set_units({d3: 6})
+        if cal.get_available_units(d3) != 6:
+            acc.violation('C17/value/direct/after-rejected-edit', f'valid set_units after a rejected one has no effect: {cal.get_available_units(d3)!r}', case)
+    except Exception as e:
+        acc.violation('C17/valid-definition-rejected/after-rejected-edit', f'a valid set_units after a rejected one raises {type(e).__name__}: {str(e)[:80]}', case)
+
+
 def check_definition(cls, valid, ast, acc):
     try:
         calast.build(ast)
@@ -291,6 +343,7 @@ def run_shard(prop, tier, seed, shard, nshards, budget, acc):
         if idx % 5 == 1:
             for cls, valid, ast in definition_cases(rnd):
                 check_definition(cls, valid, ast, acc)
+            check_rejected_edit(rnd, acc)
         acc.cases += 1
         if idx <= 2:
             acc.sample({'ast': case['ast'], 'dates': case['dates'][:4], 'searches': case['searches'][:2]})
@@ -299,6 +352,8 @@ def run_shard(prop, tier, seed, shard, nshards, budget, acc):
 def run_case(prop, case, acc):
     if case['kind'] == 'definition':
         check_definition(case['class'], case['valid'], case['ast'], acc)
+    elif case['kind'] == 'rejected-edit':
+        check_rejected_edit(None, acc, case)
     else:
         value_and_search(None, acc, case)
     acc.cases += 1
